@@ -21,6 +21,7 @@ import (
 	"strings"
 
 	"github.com/BondMachineHQ/BondMachine/pkg/bondmachine"
+	"github.com/BondMachineHQ/BondMachine/pkg/procbuilder"
 	"verif/internal/bmsim"
 	"verif/internal/bondmon"
 	"verif/internal/evid"
@@ -34,6 +35,78 @@ type caseT struct {
 	Net    gen.NetSpec `json:"net"`
 	EnvSim simdrv.Env  `json:"env_sim"`
 	EnvHDL simdrv.Env  `json:"env_hdl"`
+	// Structural: a bond graph judged by the netlist monitor only (no program could run on it:
+	// self loops, unbonded ports, processors without inputs or outputs, fan-out up to 5)
+	Structural *structSpec `json:"structural,omitempty"`
+}
+
+type structSpec struct {
+	Rsize   uint8       `json:"rsize"`
+	Procs   [][2]int    `json:"procs_n_m"`
+	Inputs  int         `json:"inputs"`
+	Outputs int         `json:"outputs"`
+	Bonds   [][2]string `json:"bonds"`
+	Order   uint64      `json:"build_order"`
+}
+
+func (sp *structSpec) build() (*bondmachine.Bondmachine, error) {
+	var machs []*procbuilder.Machine
+	for _, nm := range sp.Procs {
+		m, err := gen.NewMachine(sp.Rsize, 1, uint8(nm[0]), uint8(nm[1]), 0, 1, "ha", []string{"j", "nop"})
+		if err != nil {
+			return nil, err
+		}
+		if err := gen.Assemble(m, []string{"nop", "j 0"}); err != nil {
+			return nil, err
+		}
+		machs = append(machs, m)
+	}
+	return gen.NewBMOrder(sp.Rsize, machs, sp.Inputs, sp.Outputs, sp.Bonds, sp.Order), nil
+}
+
+func randStruct(rng interface {
+	IntN(int) int
+	Uint64() uint64
+}) *structSpec {
+	sp := &structSpec{Rsize: []uint8{8, 16, 32}[rng.IntN(3)], Inputs: rng.IntN(4), Outputs: rng.IntN(4)}
+	np := 1 + rng.IntN(4)
+	var iin, iout []string
+	for i := 0; i < sp.Inputs; i++ {
+		iout = append(iout, fmt.Sprintf("i%d", i))
+	}
+	for i := 0; i < sp.Outputs; i++ {
+		iin = append(iin, fmt.Sprintf("o%d", i))
+	}
+	for p := 0; p < np; p++ {
+		n, m := rng.IntN(4), rng.IntN(4)
+		sp.Procs = append(sp.Procs, [2]int{n, m})
+		for j := 0; j < n; j++ {
+			iin = append(iin, fmt.Sprintf("p%di%d", p, j))
+		}
+		for j := 0; j < m; j++ {
+			iout = append(iout, fmt.Sprintf("p%do%d", p, j))
+		}
+	}
+	if len(iout) == 0 {
+		return sp
+	}
+	// every internal input is bonded with probability 3/4, to any internal output (self loops, fan-out
+	// of any degree and pass-through wires included); a few sources are favoured so that outputs with
+	// three and more consumers are common
+	hot := iout[rng.IntN(len(iout))]
+	for _, in := range iin {
+		switch rng.IntN(4) {
+		case 0:
+		case 1:
+			sp.Bonds = append(sp.Bonds, [2]string{in, hot})
+		default:
+			sp.Bonds = append(sp.Bonds, [2]string{in, iout[rng.IntN(len(iout))]})
+		}
+	}
+	if rng.IntN(2) == 0 {
+		sp.Order = 1 + rng.Uint64()%1000003
+	}
+	return sp
 }
 
 // ---- netlist monitor ----------------------------------------------------------------
@@ -121,6 +194,9 @@ func netlist(bm *bondmachine.Bondmachine, files map[string]string) (string, map[
 			prodNets = append(prodNets, n) // external input: top-level port
 		}
 	}
+	if len(prodNets) == 0 {
+		return "", nil, checks
+	}
 	width, _ := sim.Width(prodNets[0])
 	mask := uint64(1)<<uint(width) - 1
 	if width >= 64 {
@@ -148,6 +224,9 @@ func netlist(bm *bondmachine.Bondmachine, files map[string]string) (string, map[
 				x = 1
 			}
 			if err := sim.Set(n, x); err != nil {
+				if _, bonded := src[strings.TrimSuffix(n, "_received")]; !bonded {
+					continue // the received line of an unbonded input is an implicit net nothing reads
+				}
 				return "net-missing", map[string]any{"net": n, "err": err.Error()}, checks
 			}
 		}
@@ -221,6 +300,26 @@ func runSide(m bmsim.Machine, n gen.NetSpec, env simdrv.Env, maxTicks, want int)
 }
 
 func verdict(scratch string, c caseT, maxTicks, want int) (kind string, w map[string]any, transfers int, netChecks int) {
+	if c.Structural != nil {
+		w = map[string]any{"case": c}
+		bm, err := c.Structural.build()
+		if err != nil {
+			return "not-buildable", w, 0, 0
+		}
+		files, err := bmsim.Files(scratch, bm)
+		if err != nil {
+			w["err"] = err.Error()
+			return "hdl-generation-failed", w, 0, 0
+		}
+		k, d, nc := netlist(bm, files)
+		if k != "" {
+			for a, b := range d {
+				w[a] = b
+			}
+			return "netlist:" + k, w, 0, nc
+		}
+		return "structural-ok", nil, 0, nc
+	}
 	n := c.Net
 	bm, err := n.Build()
 	w = map[string]any{"case": c}
@@ -326,6 +425,10 @@ func main() {
 		run.Count("netlist_checks", int64(nc))
 		run.Count("transfers_compared", int64(tr))
 		switch k {
+		case "structural-ok":
+			b, _ := json.Marshal(c.Structural)
+			run.Nontrivial("structural:" + string(b))
+			run.Count("structural_bond_graphs_checked", 1)
 		case "":
 			run.Nontrivial(c.Net.String() + fmt.Sprint(c.EnvSim.Gap, c.EnvSim.AckDelay, c.EnvHDL.Gap, c.EnvHDL.AckDelay))
 		case "not-buildable", "vsim-unsupported", "net-deadlocks-by-construction", "duplicate-read-on-one-side":
@@ -407,6 +510,14 @@ func main() {
 	// bonds without a processor on one or both ends: pass-through wires and tapped inputs
 	for i := 0; i < nRand/6; i++ {
 		mk(gen.RandomNetIO(rng, 3, []string{"add", "inc", "cpy"}))
+	}
+	// bond graphs for the netlist monitor alone
+	nStruct := 300
+	if tier == "thorough" {
+		nStruct = 4000
+	}
+	for i := 0; i < nStruct; i++ {
+		cs = append(cs, caseT{Structural: randStruct(rng)})
 	}
 	hx.Par(len(cs), func(i int) {
 		one(cs[i])
